@@ -355,4 +355,8 @@ for _l in R.lemmas.values():
     if _l.replay is None:
         _l.replay = generic_replay(_l.func, [proto, loop, _sys.modules[__name__]], patches=LOOPPATCH)
 
+for _lid in ['L11.1', 'L11.2', 'L11.4', 'L11.5']:
+    if _lid in R.lemmas:
+        R.lemmas[_lid].api = True
+
 get_harness = R.get_harness
